@@ -38,7 +38,7 @@ KROOTS = ['^@thread_entry_', '^@K_', '^@world_']
 def kjob(name, src, nt, slices, defines, mode='coop', timeout=900, desc='', unwind=4, mem_gb=12):
     return Job(name, src, 'sched', roots=KROOTS, defines=['NT=%d' % nt, 'KN=%d' % nt] + defines, clang=KCLANG,
                ir2c=KSTUB + (['--cs-none'] if mode == 'coop' else ['--cs-atomic-only']), shims=['libc.c', 'sched.c'],
-               cbmc=['-DNT=%d' % nt, '-DSLICES=%d' % slices], unwind=max(unwind, nt + 1), unwindset=['f_sched.1:%d' % (slices + 1)], nochecks=False, timeout=timeout, mem_gb=mem_gb,
+               cbmc=['-DNT=%d' % nt, '-DSLICES=%d' % slices, '-DVERIF_SHARED_ERRNO'], unwind=max(unwind, nt + 1), unwindset=['f_sched.1:%d' % (slices + 1)], nochecks=False, timeout=timeout, mem_gb=mem_gb,
                desc=desc, bounds='%d threads, <= %d execution slices, %s scheduling' % (nt, slices, 'cooperative (switch at blocking calls)' if mode == 'coop' else 'pre-emptive at atomic operations'))
 
 # ---- contract-level sync layer (rt/ksync.h): clients of mutex / cv / semaphore
